@@ -10,6 +10,7 @@
 package main
 
 import (
+	"strings"
 	"sync/atomic"
 	"bytes"
 	"encoding/binary"
@@ -267,7 +268,7 @@ func main() {
 	if run.Thorough() {
 		maxLen = 5
 	}
-	run.Set("rule", "All sequences of length 1..maxLen over the private-key alphabet {a, b, r-a, 1, r-1} (contains every permutation, duplicates, inverse pairs and sums equal to the identity). Every sequence is run under 4 policies for the internal representation of the public-key objects (affine from PublicKey(); projective with Z != 1 from RemoveBLSPublicKeys; two mixes). Per sequence: every set partition of the positions as a nesting (Agg of each block, then Agg of the results; singleton blocks go through a one-element Agg) plus left and right folds, for private keys, public keys and signatures under 4 (message, tag) contexts; the signature of the aggregated private key; RemoveBLSPublicKeys(Agg(all), B) for every subset B of the positions (incl. empty and everything), given as individual keys and as one pre-aggregated key; identity encodings / IsBLSSignatureIdentity / Equals(IdentityBLSPublicKey) on cancelling sequences; Verify of the aggregate under the aggregate key. Cache patterns: every sequence of length 2..3 (thorough 4) with fresh private-key objects under every pattern of which inputs already had PublicKey() called. Long lists: lengths 2^k-1, 2^k, 2^k+1 for k=3..9 (thorough 10) and 100, 200, 300 for all five operations incl. nested halves and a malformed signature at the first/middle/last position. Error shapes: empty lists, malformed signature of 7 kinds at each position, off-group signature at each position (accepted by design), ECDSA key at each position. Oracle: sum of scalars mod r, [sum]g2 and [sum]H(m) in math/big, compared as bytes through the c0||c1 codec. A case is distinct/non-trivial per (sequence, nesting, object kind) and per (sequence, removed subset).")
+	run.Set("rule", "All sequences of length 1..maxLen over the private-key alphabet {a, b, r-a, 1, r-1} (contains every permutation, duplicates, inverse pairs and sums equal to the identity). Every sequence is run under 4 policies for the internal representation of the public-key objects (affine from PublicKey(); projective with Z != 1 from RemoveBLSPublicKeys; two mixes). Per sequence: every set partition of the positions as a nesting (Agg of each block, then Agg of the results; singleton blocks go through a one-element Agg) plus left and right folds, for private keys, public keys and signatures under 4 (message, tag) contexts; the signature of the aggregated private key; RemoveBLSPublicKeys(Agg(all), B) for every subset B of the positions (incl. empty and everything), given as individual keys and as one pre-aggregated key; identity encodings / IsBLSSignatureIdentity / Equals(IdentityBLSPublicKey) on cancelling sequences; Verify of the aggregate under the aggregate key. Cache patterns: every sequence of length 2..3 (thorough 4) with fresh private-key objects under every pattern of which inputs already had PublicKey() called. Long lists: lengths 2^k-1, 2^k, 2^k+1 for k=3..9 (thorough 10) and 100, 200, 300 for all five operations incl. nested halves and a malformed signature at the first/middle/last position. Error shapes: the full structured candidate family of C01/C05 (957 strings) as one entry of a 3-list (non-canonical: invalid-signature error; canonical in or outside G1: summed); empty lists, malformed signature of 8 kinds at each position, off-group signature at each position (accepted by design), ECDSA key at each position. Oracle: sum of scalars mod r, [sum]g2 and [sum]H(m) in math/big, compared as bytes through the c0||c1 codec. A case is distinct/non-trivial per (sequence, nesting, object kind) and per (sequence, removed subset).")
 	run.Set("max_sequence_length", maxLen)
 	run.Set("alphabet", []string{"a", "b", "r-a", "1", "r-1"})
 
@@ -697,6 +698,42 @@ func errShapes(a *big.Int) {
 			}
 		}
 	}
+	// the FULL structured candidate family (the one C01/C05 offer to Verify) as one entry of a list of
+	// three: every string that is not a canonical encoding of a curve point must make the aggregation
+	// fail with the invalid-signature error, every canonical one (in or outside G1) is summed
+	{
+		H, err0 := refbls.DecodeG1(syms[3].sigs[0]) // the key 1: H(m) itself
+		sa, err1 := refbls.DecodeG1(syms[0].sigs[0])
+		sb, err2 := refbls.DecodeG1(syms[1].sigs[0])
+		if err0 != nil || err1 != nil || err2 != nil {
+			run.Fatal("decoding base signatures for the candidate family")
+		}
+		cands := refbls.G1Candidates(sa, H)
+		run.Set("aggregation_candidate_family", len(cands))
+		ev.Par(len(cands), func(i int) {
+			c := cands[i]
+			pos := i % 3
+			l := []crypto.Signature{syms[0].sigs[0], syms[1].sigs[0], syms[1].sigs[0]}
+			l[pos] = c.Bytes
+			others := sb.Add(sb)
+			if pos != 0 {
+				others = sa.Add(sb)
+			}
+			v := refbls.JudgeG1(c.Bytes)
+			out, err := crypto.AggregateBLSSignatures(l)
+			run.Add("evaluations", 1)
+			rp := map[string]any{"candidate": c.Name, "bytes": ev.Hex(c.Bytes), "position": pos}
+			if !v.Decodes {
+				if out != nil || !crypto.IsInvalidSignatureError(err) {
+					run.Violation("errors:malformed-signature:family:"+class(c.Name), fmt.Sprintf("AggregateBLSSignatures with the non-canonical entry %s at position %d: (%x, %v), want the invalid-signature error", c.Name, pos, out, err), rp)
+				}
+			} else if want := refbls.EncodeG1(others.Add(v.Point)); err != nil || !bytes.Equal(out, want) {
+				rp["expected"] = ev.Hex(want)
+				run.Violation("agg:signature:family:"+class(c.Name), fmt.Sprintf("AggregateBLSSignatures with the canonical entry %s at position %d: (%x, %v), want the sum of the three points", c.Name, pos, out, err), rp)
+			}
+			run.Distinct("fam/" + c.Name)
+		})
+	}
 	esk, _ := crypto.GeneratePrivateKey(crypto.ECDSAP256, seedBytes("ecdsa", 32))
 	if _, err := crypto.RemoveBLSPublicKeys(esk.PublicKey(), []crypto.PublicKey{syms[0].pk}); !crypto.IsNotBLSKeyError(err) {
 		run.Violation("errors:non-BLS-key", fmt.Sprintf("RemoveBLSPublicKeys(ECDSA key, ...) = %v", err), nil)
@@ -884,4 +921,13 @@ func cachePatterns(r *big.Int, thorough bool) {
 	})
 	run.Add("evaluations", n)
 	run.Set("cache_pattern_cases", n)
+}
+
+
+// class strips indices from a candidate name ("bitflip/17" -> "bitflip").
+func class(name string) string {
+	if i := strings.IndexByte(name, '/'); i >= 0 {
+		return name[:i]
+	}
+	return name
 }
